@@ -55,7 +55,7 @@ impl Property for C04Prop {
         "C04"
     }
     fn rule(&self) -> String {
-        "A program = canonical printer prelude + a sequence of DECLARATIONS built from a small AST (enum blocks with auto / numeric-literal incl. negative, fractional, large / constant-expression incl. references to earlier members and to other enums / computed non-constant numeric / string members, duplicate values, quoted non-identifier names, repeated `enum E` blocks, const enums, enums local to functions, blocks and loop bodies; namespace trees with nested, dotted and merged blocks, exported const/let/var/function/class/enum/namespace, non-exported locals, references to exports of the same block, of earlier blocks and of enclosing namespaces, mutation of exported variables from inside and outside, namespaces merged with a function, class or enum; classes with constructor parameter properties in every modifier combination, defaults, plain and rest parameters mixed in, with and without extends/super, abstract classes with abstract members and concrete subclasses) interleaved with USES (forward/reverse lookups, Object.keys/values/entries/getOwnPropertyNames, for-in, JSON.stringify, typeof, identity, in/hasOwnProperty, spread, descriptor reads, passing the object to functions, writes/deletes/defineProperty/freeze through `as any`, calls of namespace functions, instance creation and own-property order, instanceof, prototype contents), optionally wrapped around a progen core program (clean profile). Every program is rendered twice from the same AST: as TypeScript and as the JavaScript tsc is specified to emit (DESIGN Appendix B). Oracle: tsrun(TypeScript) must give the same printed completion value, console lines and error class as node(emit) (reference engine) and as tsrun(emit) (self-differential). Productions gated by an open finding are not emitted (counted). Non-trivial: some declaration has >= 3 members/exports/parameter properties AND the program performs a reverse lookup, an enumeration of own keys, or merges a repeated declaration, and the TypeScript program was not rejected. Distinct = distinct TypeScript text.".into()
+        "A program = canonical printer prelude + a sequence of DECLARATIONS built from a small AST (enum blocks with auto / numeric-literal incl. negative, fractional, large / constant-expression incl. references to earlier members and to other enums / computed non-constant numeric / string members, duplicate values, quoted non-identifier names, repeated `enum E` blocks, const enums, enums local to functions, blocks and loop bodies, sibling scopes (blocks, switch-case blocks, loop bodies, if/else branches, namespace blocks, at top level or in a function body) that each declare an unrelated enum of the same name, with and without an outer enum of that name; namespace trees with nested, dotted and merged blocks, exported const/let/var/function/class/enum/namespace, non-exported locals, references to exports of the same block, of earlier blocks and of enclosing namespaces, mutation of exported variables from inside and outside, namespaces merged with a function, class or enum; classes with constructor parameter properties in every modifier combination, defaults, plain and rest parameters mixed in, with and without extends/super, abstract classes with abstract members and concrete subclasses) interleaved with USES (forward/reverse lookups, Object.keys/values/entries/getOwnPropertyNames, for-in, JSON.stringify, typeof, identity, in/hasOwnProperty, spread, descriptor reads, passing the object to functions, writes/deletes/defineProperty/freeze through `as any`, calls of namespace functions, instance creation and own-property order, instanceof, prototype contents), optionally wrapped around a progen core program (clean profile). Every program is rendered twice from the same AST: as TypeScript and as the JavaScript tsc is specified to emit (DESIGN Appendix B). Oracle: tsrun(TypeScript) must give the same printed completion value, console lines and error class as node(emit) (reference engine) and as tsrun(emit) (self-differential). Productions gated by an open finding are not emitted (counted). Non-trivial: some declaration has >= 3 members/exports/parameter properties AND the program performs a reverse lookup, an enumeration of own keys, or merges a repeated declaration, and the TypeScript program was not rejected. Distinct = distinct TypeScript text.".into()
     }
     fn assumptions(&self) -> Vec<String> {
         vec![
